@@ -32,7 +32,7 @@ LEVEL = "fault_enumeration"
 ANCHORS = ["git.py", "loader.py", "cli.py", "diff.py"]
 RULE = ("seeded scratch repositories (4-6 commits incl. package-absent, two API versions, syntax-error commits; lightweight / "
         "annotated / slashed tags, slashed branches, a side branch; dirty tracked file, staged file, untracked files, "
-        "optional stash, detached-HEAD variants, optional pre-existing griffe-<ref> branch, repository directory names "
+        "optional stash, detached-HEAD variants, optional pre-existing griffe-<ref> branch, optional linked worktree of the user, repository directory names "
         "with a space or non-ASCII letter, flat and src layouts); per repository the operation x fault space is "
         "enumerated: successful load_git of every ref form (tag, annotated slashed tag, slashed branches, side branch, "
         "HEAD, main~1, full and short sha); each git step of load_git/check before the load x {non-zero status, OSError, "
@@ -40,7 +40,7 @@ RULE = ("seeded scratch repositories (4-6 commits incl. package-absent, two API 
         "submodule; extension raising RuntimeError at event n for EVERY n of the recorded trace, KeyboardInterrupt at "
         "every n (every 3rd n in the quick tier) and a real SIGINT at every 7th n; forced inspection without and with "
         "bytecode writing; an extension writing an untracked / an ignored file into the checkout; the checkout directory "
-        "vanishing during the load; check() with explicit "
+        "vanishing during the load; a stale (prunable) worktree entry of the user's own in the repository; check() with explicit "
         "and implicit `against`, with and without base_ref, each with all git-step faults and extension faults at three "
         "trace positions. distinct = (history, operation, fault); non-trivial = the fault fires after the temporary "
         "worktree exists")
@@ -54,7 +54,7 @@ TECHNIQUE = ("runtime monitoring: repository / filesystem snapshots around the r
              "on git subprocess steps and on extension events (incl. real SIGINT)")
 REQUIRED_COUNTERS = ["snapshots_compared", "tmpdir_listings_checked", "git_step_faults_fired", "extension_faults_fired",
                      "interrupts_delivered", "sigint_delivered", "usability_probes", "source_lines_compared",
-                     "check_runs", "cleanup_commands_observed", "bytecode_written_in_worktree", "checkout_vanished_cases", "preexisting_branch_cases",
+                     "check_runs", "cleanup_commands_observed", "bytecode_written_in_worktree", "checkout_vanished_cases", "user_stale_worktree_cases", "preexisting_branch_cases",
                      "unknown_ref_cases", "absent_package_cases", "syntax_error_cases", "faults_after_worktree_exists",
                      "successful_loads"]
 EXHAUSTIVE = {"quick": False, "thorough": False}
@@ -124,6 +124,7 @@ def gen_history(rng: random.Random, tag: str) -> dict:
         "staged": {"setup.cfg": "[metadata]\nname = x\n"} if rng.random() < 0.6 else {},
         "stash": {"README.md": "stashed edit\n"} if rng.random() < 0.4 else {},
         "pre_branches": rng.choice([[], [], ["griffe-v0-1-0"], ["griffe-v0-1-0", "griffe-topic-deep-er"]]),
+        "worktrees": [{"branch": "wt/live", "dir": "user worktree", "at": "v0.2.0"}] if rng.random() < 0.4 else [],
     }
     return hist
 
@@ -241,6 +242,15 @@ class Repo:
         shutil.rmtree(os.path.dirname(self.path), ignore_errors=True)
         os.makedirs(os.path.dirname(self.path))
         gs.copy_repo(self.pristine, self.path)
+        for wt in self.hist.get("worktrees", []):  # the user's own linked worktrees (absolute paths: created after the copy)
+            gs.git(self.path, "worktree", "add", "-q", "-b", wt["branch"], os.path.join(os.path.dirname(self.path), wt["dir"]), wt["at"])
+        self.before = gs.snapshot(self.path)
+
+    def add_stale_worktree(self) -> None:
+        """The user once had a linked worktree and deleted its directory by hand: git keeps a prunable entry."""
+        loc = os.path.join(os.path.dirname(self.path), "old-worktree")
+        gs.git(self.path, "worktree", "add", "-q", "-b", "wt/stale", loc, "main~1")
+        shutil.rmtree(loc)
         self.before = gs.snapshot(self.path)
 
     def resolve(self, ref: dict) -> str:
@@ -322,10 +332,29 @@ def usability(rec, result, hist: dict, expected_files: dict | None, inspected: b
 
 
 # ------------------------------------------------------------------------------------------
-def classify(op: dict, diff: dict, leftovers: list, fp: gs.GitFailpoints, ref: str | None) -> tuple[str | None, list[str]]:
+def classify(op: dict, diff: dict, leftovers: list, fp: gs.GitFailpoints, before: dict | None) -> tuple[str | None, list[str]]:
     """Mechanism classifiers for listed findings: predicates over the operation, the observed git trace and the diff."""
-    tried = ["C20-unclean-worktree-leak", "C20-interrupt-after-worktree-add"]
+    tried = ["C20-unclean-worktree-leak", "C20-interrupt-after-worktree-add", "C20-prune-drops-user-stale-worktree"]
     if leftovers or not diff:
+        return None, tried
+    if set(diff) <= {"worktree-list", "admin-worktrees"} and before is not None:
+        # the only change: worktree entries that were ALREADY prunable before the operation are gone, and the
+        # repository-wide `git worktree prune` of the cleanup ran successfully
+        wl = diff.get("worktree-list", {"added": [], "removed": []})
+        adm = diff.get("admin-worktrees", {"added": [], "removed": []})
+        stale_paths = set()
+        lines = before["worktree-list"]
+        for i, line in enumerate(lines):
+            if line.startswith("prunable"):
+                j = i
+                while j >= 0 and not lines[j].startswith("worktree "):
+                    j -= 1
+                stale_paths.add(lines[j])
+        removed_entries = [x for x in wl["removed"] if x.startswith("worktree ")]
+        pruned = any(e["cmd"] == "worktree prune" and e["status"] == 0 for e in fp.cleanup_issued())
+        if (pruned and not wl["added"] and not adm["added"] and removed_entries and set(removed_entries) <= stale_paths
+                and len(adm["removed"]) == len(removed_entries)):
+            return "C20-prune-drops-user-stale-worktree", tried
         return None, tried
     # both mechanisms leave exactly: temporary branch(es) griffe-* and prunable worktree entries; nothing else may differ
     allowed_keys = {"for-each-ref", "worktree-list", "admin-worktrees"}
@@ -360,6 +389,9 @@ def run_case(ctx: Ctx, repo: Repo, op: dict) -> dict:  # noqa: C901, PLR0912, PL
     hist = repo.hist
     case = {"history": hist, "op": op}
     fault = op.get("fault")
+    if op.get("pre") == "stale-worktree":
+        repo.add_stale_worktree()
+        rec.count("user_stale_worktree_cases")
     before = repo.before
     private_tmp = tempfile.mkdtemp(prefix="tmp-", dir=ctx.base)
     os.environ["TMPDIR"] = private_tmp
@@ -510,13 +542,15 @@ def run_case(ctx: Ctx, repo: Repo, op: dict) -> dict:  # noqa: C901, PLR0912, PL
            "git_trace": fp.log, "unclean_before_remove": fp.unclean_before_remove, "events": ext_state["events"]}
     tags = (op["op"], "fault:" + (fault["type"] if fault else "none"))
     if problems:
-        fid, tried = classify(op, diff, leftovers, fp, ref) if len(problems) == 1 and diff else (None, [])
+        fid, tried = classify(op, diff, leftovers, fp, before) if len(problems) == 1 and diff else (None, [])
         rec.fail(case, problems[0][0], observed=obs, expected="repository snapshot and TMPDIR identical before/after; "
                  "returned objects usable", finding=fid, tried=tried, nontrivial=True, tags=tags)
         repo.fresh()
     else:
         rec.ok(case, nontrivial=nontrivial, tags=tags)
         repo.before = after
+        if op.get("pre"):
+            repo.fresh()
     obs["problems"] = [p[0] for p in problems]
     return obs
 
@@ -576,6 +610,10 @@ def enumerate_static_ops(hist: dict, rng: random.Random) -> list[dict]:
     ops.append({"op": "load_git", **hist_good, "fault": {"type": "ext-rmtree", "then": "return"}, "expect": "ok"})
     ops.append({"op": "load_git", **hist_good, "fault": {"type": "ext-rmtree", "then": "raise"}, "expect": "ok"})
     ops.append({"op": "load_git", **hist_good, "expect": "ok"})
+    # the user's repository has a stale (prunable) worktree entry of its own
+    ops.append({"op": "load_git", **hist_good, "pre": "stale-worktree", "expect": "ok"})
+    ops.append({"op": "load_git", **hist_good, "pre": "stale-worktree", "fault": {"type": "ext", "n": 1, "exc": "RuntimeError"}, "expect": "ok"})
+    ops.append({"op": "load_git", **hist_good, "pre": "stale-worktree", "fault": {"type": "git", "at": 2, "kind": "fail"}, "expect": "ok"})
     return ops
 
 
